@@ -665,6 +665,24 @@ def _derive():
         return _test01(ifs[0].test, {}, ['N'], 'input_check_model')
     emit('inputCheck2d', 'input_check_2d', ['N'], input_check_2d)
 
+    # round 4: in-place writes into the arguments (state that survives a call)
+    def input_writes(which):
+        def go():
+            sys.path.insert(0, HERE)
+            try:
+                import importlib
+                import _C04_writes
+                importlib.reload(_C04_writes)
+                total, stripped, _report = _C04_writes.input_writes()
+            except _C04_writes.Underivable as exc:
+                raise Underivable(str(exc))
+            finally:
+                sys.path.remove(HERE)
+            return str(total if which == 0 else stripped)
+        return go
+    emit('evalInputWrites', 'eval_input_writes', [], input_writes(0))
+    emit('testsetIndexDefaults', 'testset_index_defaults', [], input_writes(1))
+
     text = '\n'.join(out)
     if not (os.path.exists(DERIVED) and open(DERIVED).read() == text):
         with open(DERIVED + '.tmp', 'w') as f:
